@@ -104,6 +104,25 @@ def hand(name):
         add("negative-literal", 'forall <var> v: str.len(v) > -1', FA("<var>", "v", SMT(A(">", A("str.len", V("v")), I(-1)))))
         add("prefix-nested", 'forall <assgn> a: str.len(a) + 1 = 7', FA("<assgn>", "a", SMT(A("=", A("+", A("str.len", V("a")), I(1)), I(7)))))
         add("prefix-nested", 'forall <rhs> r: str.to.int(str.from_int(str.len(r))) = 1', FA("<rhs>", "r", SMT(A("=", A("str.to.int", A("str.from_int", A("str.len", V("r")))), I(1)))))
+    if name == "ASSGN2S":
+        # <assgn> ::= <var> := <rhs> | !<var> : an XPath step through <assgn> covers both alternatives
+        def both(q, conn, body, var):
+            return conn(q("<assgn>", "a", body, mexpr=M(MNT("<var>", var), MCH(" := "), MNT("<rhs>"))),
+                        q("<assgn>", "a", body, mexpr=M(MCH("!"), MNT("<var>", var))))
+        add("xpath-alternatives", 'forall <assgn> a: a.<var> = "a"', both(FA, AND, lit("l", "a"), "l"))
+        add("xpath-alternatives", 'exists <assgn> a: a.<var> = "b"', both(EX, OR, lit("l", "b"), "l"))
+        add("xpath-alternatives", '<assgn>.<var> = "a"', both(FA, AND, lit("l", "a"), "l"))
+        add("xpath-alternatives", 'forall <assgn> a: not a.<var> = "b"', both(FA, AND, NOT(lit("l", "b")), "l"))
+        add("xpath-child", 'forall <assgn> a: a.<rhs>.<var> = "a"', FA("<assgn>", "a", lit("v", "a"), mexpr=M(MNT("<var>"), MCH(" := "), MNT("<var>", "v"))))
+        add("xpath-descendant", 'forall <stmt> s: s..<var> = "a"', FA("<stmt>", "s", FA("<var>", "v", lit("v", "a"), inn="s")))
+    if name == "WIDE12":
+        def nth_d(k, var="x"):
+            return M(*[MNT("<d>", var) if j == k else MNT("<d>") for j in range(1, 13)])
+        for k in (2, 9, 10, 11, 12):
+            add("xpath-index-wide", 'forall <row> r: r.<d>[%d] = "1"' % k, FA("<row>", "r", lit("x", "1"), mexpr=nth_d(k)))
+        add("xpath-index-wide", '<row>.<d>[12] = "0"', FA("<row>", "r", lit("x", "0"), mexpr=nth_d(12)))
+        add("xpath-index-wide", 'exists <row> r: r.<d>[11] = r.<d>[1]', EX("<row>", "r", SMT(A("=", V("x"), V("y"))),
+                                                                          mexpr=M(*[MNT("<d>", "y") if j == 1 else MNT("<d>", "x") if j == 11 else MNT("<d>") for j in range(1, 13)])))
     if name == "XMLISH":
         both_all = AND(FA("<tree>", "t", lit("i", "a"), mexpr=M(MCH("("), MNT("<id>", "i"), MCH(")"), MNT("<inner>"), MCH("(/"), MNT("<id>"), MCH(")"))),
                        FA("<tree>", "t", lit("i", "a"), mexpr=M(MCH("("), MNT("<id>", "i"), MCH("/)"))))
